@@ -633,11 +633,11 @@ def make_oracle_c04(listed):
     return oracle
 
 
-def replay_l2(ws, root, h, r, fails, crate, fq, prop="C04"):
+def replay_l2(ws, root, h, r, fails, crate, fq, prop="C04", no_playback=False):
     """native confirmation of an L2 unit counterexample: concrete texts around the solver's
     token kinds, run through the real parser and judged by the property-level oracle"""
     import realise, gen_rules
-    pbs, lp = get_playback_vals(ws, root, crate, fq, h["name"])
+    pbs, lp = ([], None) if no_playback else get_playback_vals(ws, root, crate, fq, h["name"])
     names = realise.kind_names(ws)
     unit = h.get("unit")
     units = {u[0]: u for u in gen_rules.UNITS}
@@ -810,7 +810,7 @@ def check(prop, tier, only=None, seed=0):
                 continue
             if r["status"] == "SUCCESSFUL":
                 for d, st in r["covers"].items():
-                    if d.startswith("W:") and st == "UNREACHABLE" and h.get("allow_unreachable_w"):
+                    if d.startswith("W:") and st in ("UNREACHABLE", "UNSATISFIABLE") and h.get("allow_unreachable_w"):
                         continue
                     if d.startswith("W:") and st != "SATISFIED":
                         inconclusive.append((name, f"vacuity witness not satisfied: {d} ({st})"))
@@ -857,7 +857,13 @@ def check(prop, tier, only=None, seed=0):
             custom = h.get("replay")
             if all("unwinding assertion" in f["desc"] for f in fails) and h.get("unwind_replay"):
                 custom = h["unwind_replay"]
-            if custom:
+                if custom == "l2":
+                    # an unwinding failure has no kani playback: search the unit's sentence space
+                    rep, det = replay_l2(ws, root, h, r, fails, crate, fq, prop="C02", no_playback=True)
+                    custom = "done"
+            if custom == "done":
+                pass
+            elif custom:
                 if custom == "l2":
                     rep, det = replay_l2(ws, root, h, r, fails, crate, fq, prop=prop if prop in ("C04", "C02") else "C04")
                 else:
